@@ -78,13 +78,16 @@ def build_axioms():
     # split:  x = shr(x,a)*2^a + low(x,a)
     ax('split', FA([x, a], _imp(a >= 0, x == shr(x, a) * pow2(a) + low(x, a)), [z3.MultiPattern(shr(x, a), low(x, a))]))
     # single-bit test:  x & 2^k
-    ax('band_bit', FA([x, k], _imp(z3.And(k >= 0, x >= 0), band(x, pow2(k)) == pow2(k) * low(shr(x, k), 1)),
+    ax('band_bit', FA([x, k], _imp(z3.And(k >= 0, x >= 0),
+                                   z3.And(_imp(low(shr(x, k), 1) == 1, band(x, pow2(k)) == pow2(k)),
+                                          _imp(low(shr(x, k), 1) == 0, band(x, pow2(k)) == 0),
+                                          z3.Or(low(shr(x, k), 1) == 0, low(shr(x, k), 1) == 1))),
                       [band(x, pow2(k))]))
     # top bit of a w-bit value:  low(shr(x,w-1),1) == 1  <->  x >= 2^(w-1)      (0 <= x < 2^w)
-    ax('top_bit', FA([x, k], _imp(z3.And(k >= 0, x >= 0, x < pow2(k + 1)),
-                                  z3.And(_imp(x >= pow2(k), low(shr(x, k), 1) == 1),
-                                         _imp(x < pow2(k), low(shr(x, k), 1) == 0))),
-                     [low(shr(x, k), 1)]))
+    ax('top_bit', FA([x, k, a], _imp(z3.And(k >= 0, a == k + 1, x >= 0, x < pow2(a)),
+                                     z3.And(_imp(x >= pow2(k), low(shr(x, k), 1) == 1),
+                                            _imp(x < pow2(k), low(shr(x, k), 1) == 0))),
+                     [z3.MultiPattern(low(shr(x, k), 1), pow2(a))]))
     # ---- bytes ------------------------------------------------------------------------------------------------
     ax('blen_nonneg', FA([d], blen(d) >= 0, [blen(d)]))
     ax('blen_empty', blen(bempty) == 0)
@@ -119,6 +122,8 @@ def build_axioms():
                     [tb(v, k)]))
     ax('tl_len', FA([v, k], _imp(z3.And(k >= 0, v >= 0, v < pow2(8 * k)), z3.And(blen(tl(v, k)) == k, le(tl(v, k)) == v)),
                     [tl(v, k)]))
+    # byte reversal: the big-endian value of the little-endian encoding is the little-endian value of the big-endian one
+    ax('be_tl', FA([v, k], _imp(z3.And(k >= 0, v >= 0, v < pow2(8 * k)), be(tl(v, k)) == le(tb(v, k))), [be(tl(v, k))]))
     ax('bat_range', FA([d, a], _imp(z3.And(0 <= a, a < blen(d)), z3.And(bat(d, a) >= 0, bat(d, a) <= 255)), [bat(d, a)]))
     # bytes.index: least aligned-or-not byte offset of the first occurrence, or -1
     ax('bfind_range', FA([d, e], z3.And(bfind(d, e) >= -1, bfind(d, e) + blen(e) <= blen(d)), [bfind(d, e)]))
